@@ -74,7 +74,7 @@ def _halfpow(tf, x2, J):
     return x2 ** (J // 2) * (tf.sqrt(x2) if J % 2 else 1.0)
 
 
-def _mk(mset, spins, chains):
+def _mk(mset, spins, chains, reeval=False):
     def g(ctx):
         tf, shim = ctx.tf, ctx.shim
         import numpy
@@ -135,16 +135,24 @@ def _mk(mset, spins, chains):
             return ctx.real("other%d" % n_other[0], d.a.shape)  # four-momenta, all other angles, aligned angles: free symbols
 
         sdata = build(template, ())
-        par = {}
-        for name in sorted(amp.vm.variables):
-            if name.endswith("_mass"):
-                smp = lambda rng: rng.uniform(1.9, 2.2)  # noqa: E731
-            elif name.endswith("_width"):
-                smp = lambda rng: rng.uniform(0.05, 0.4)  # noqa: E731
-            else:
-                smp = lambda rng: rng.uniform(0.3, 2.0)  # noqa: E731
-            par[name] = ctx.real("v%d" % len(par), (), sample=smp)
-            amp.vm.variables[name].assign(par[name])
+
+        def assign_params(prefix):
+            par = {}
+            for name in sorted(amp.vm.variables):
+                if name.endswith("_mass"):
+                    smp = lambda rng: rng.uniform(1.9, 2.2)  # noqa: E731
+                elif name.endswith("_width"):
+                    smp = lambda rng: rng.uniform(0.05, 0.4)  # noqa: E731
+                else:
+                    smp = lambda rng: rng.uniform(0.3, 2.0)  # noqa: E731
+                par[name] = ctx.real("%s%d" % (prefix, len(par)), (), sample=smp)
+            # through the public setter, as a user (mass scan, systematic variation) would do it
+            amp.set_params({k: v for k, v in par.items()})
+            for name in par:  # set_params must have stored exactly these symbols
+                assert shim.elems(amp.vm.variables[name].value_)[0] is shim.elems(par[name])[0], name
+            return par
+
+        par = assign_params("v")
         # nominal masses of the external particles: symbolic as well (the attribute Particle.mass is a configuration input; with float masses
         # the code's Python-float arithmetic m1 - m2 would be rounded before it reaches the symbolic layer)
         nominal = {}
@@ -174,34 +182,50 @@ def _mk(mset, spins, chains):
         # (max_den 10^4: the tables of J <= 4 have denominators < 10^4, while a mass such as 1.8646 is NOT within 4 ulp of any such root)
         with tm.float_recogniser(tm.sqrt_rational_recogniser(max_den=10**4)):
             out = amp(sdata)
-        # ---- closed form of the statement
-        A = None
-        for ck in chains:
-            r, a, b, spect = st["pairs"][ck]
-            J = st["res"][r]["J"]
-            rn = M.nm(sname, r)
-            m0, g0 = par[rn + "_mass"], par[rn + "_width"]
-            c = None
-            n_c = 0
-            for name in par:
-                if name.endswith("r") and (rn + "->" in name or "->" + rn + "." in name):
-                    rr, ph = par[name], par[name[:-1] + "i"]
-                    z = tf.complex(rr * tf.cos(ph), rr * tf.sin(ph))
-                    c = z if c is None else c * z
-                    n_c += 1
-            assert n_c == 3, (rn, n_c)
-            X = per[ck]
-            q02 = _breakup2(m0, fm[a], fm[b])
-            p02 = _breakup2(MA, m0, fm[spect])
-            bw = BWR(X["m"], m0, g0, _relp(tf, X["m"], msym[a], msym[b]), _relp(tf, m0, fm[a], fm[b]), J, 3.0)
-            realf = (-1) ** J * _halfpow(tf, X["Q2"], J) * _halfpow(tf, X["P2"], J) * Bq2(J, X["Q2"], q02, 3.0) * Bq2(J, X["P2"], p02, 3.0) \
-                * LEG[J](tf.cos(X["beta"]))
-            term = c * bw * tf.complex(realf, 0 * realf)
-            A = term if A is None else A + term
-        spec = tf.math.real(A * tf.math.conj(A))
-        ctx.eq("density", out, spec,
-               clause="AmplitudeModel(data) == |sum_k c_k (-1)^J Q_k^(J/2) P_k^(J/2) B_J(Q_k,q0^2) B_J(P_k,p0^2) BWR_J(m_k; m0,G0; q(m_k), q0) P_J(cos beta_k)|^2 "
-                      "for ALL values of the data leaves and parameters (spins %s, chains %s)" % (list(spins), ",".join(chains)))
+        # ---- closed form of the statement, as a function of the parameter symbols
+        def closed_form(par):
+            A = None
+            for ck in chains:
+                r, a, b, spect = st["pairs"][ck]
+                J = st["res"][r]["J"]
+                rn = M.nm(sname, r)
+                m0, g0 = par[rn + "_mass"], par[rn + "_width"]
+                c = None
+                n_c = 0
+                for name in par:
+                    if name.endswith("r") and (rn + "->" in name or "->" + rn + "." in name):
+                        rr, ph = par[name], par[name[:-1] + "i"]
+                        z = tf.complex(rr * tf.cos(ph), rr * tf.sin(ph))
+                        c = z if c is None else c * z
+                        n_c += 1
+                assert n_c == 3, (rn, n_c)
+                X = per[ck]
+                q02 = _breakup2(m0, fm[a], fm[b])
+                p02 = _breakup2(MA, m0, fm[spect])
+                bw = BWR(X["m"], m0, g0, _relp(tf, X["m"], msym[a], msym[b]), _relp(tf, m0, fm[a], fm[b]), J, 3.0)
+                realf = (-1) ** J * _halfpow(tf, X["Q2"], J) * _halfpow(tf, X["P2"], J) * Bq2(J, X["Q2"], q02, 3.0) * Bq2(J, X["P2"], p02, 3.0) \
+                    * LEG[J](tf.cos(X["beta"]))
+                term = c * bw * tf.complex(realf, 0 * realf)
+                A = term if A is None else A + term
+            return tf.math.real(A * tf.math.conj(A))
+
+        CL_TXT = ("AmplitudeModel(data) == |sum_k c_k (-1)^J Q_k^(J/2) P_k^(J/2) B_J(Q_k,q0^2) B_J(P_k,p0^2) BWR_J(m_k; m0,G0; q(m_k), q0) P_J(cos beta_k)|^2 "
+                  "for ALL values of the data leaves and parameters (spins %s, chains %s)" % (list(spins), ",".join(chains)))
+        ctx.eq("density", out, closed_form(par), clause=CL_TXT)
+        if reeval:
+            # the SAME model object after every parameter (fixed or floating: masses, widths, couplings) was changed through set_params:
+            # nothing computed during the first evaluation may survive in a cache
+            par2 = assign_params("u")
+            for ck in chains:
+                r, a, b, spect = st["pairs"][ck]
+                rn = M.nm(sname, r)
+                ctx.require(par2[rn + "_mass"] > fm[a] + fm[b])
+                ctx.require(par2[rn + "_mass"] < MA - fm[spect])
+                ctx.require(par2[rn + "_width"] > 0.0)
+            with tm.float_recogniser(tm.sqrt_rational_recogniser(max_den=10**4)):
+                out2 = amp(sdata)
+            ctx.eq("density_after_set_params", out2, closed_form(par2),
+                   clause="after amp.set_params(new values for every parameter) on the same model object: " + CL_TXT)
 
     return g
 
@@ -227,7 +251,8 @@ for _ck, _pos in (("bc", 0), ("bd", 1), ("cd", 2)):
         _sp = [0, 0, 0]
         _sp[_pos] = _J
         group(["C04"], "amp.stage/single/%s/J=%d" % (_ck, _J), _FUNCS, env="shim", kind="P", no_native=True, cost=1 + _J, assumes=_ASSUME,
-              bound="chain %s alone, resonance spin %d" % (_ck, _J))(_mk(_MSETS[_n % len(_MSETS)], tuple(_sp), (_ck,)))
+              bound="chain %s alone, resonance spin %d; evaluated, all parameters replaced through set_params, evaluated again" % (_ck, _J))(
+            _mk(_MSETS[_n % len(_MSETS)], tuple(_sp), (_ck,), reeval=True))
         _n += 1
 
 # interfering chains: relative signs and phases.  Every pair of chains with every (J1, J2), and all three chains with every (J1, J2, J3)
@@ -247,7 +272,8 @@ for _J1 in range(5):
             _quick = (_J1, _J2, _J3) in ((0, 1, 2), (1, 2, 3), (2, 3, 4), (3, 4, 0), (4, 0, 1), (1, 1, 1), (4, 4, 4), (2, 1, 3))
             group(["C04"], "amp.stage/triple/J=%d-%d-%d" % (_J1, _J2, _J3), _FUNCS, env="shim", kind="P", no_native=True, cost=3 + _J1 + _J2 + _J3, assumes=_ASSUME,
                   tiers=("quick", "thorough") if _quick else ("thorough",),
-                  bound="all three chains interfering, spins (%d, %d, %d)" % (_J1, _J2, _J3))(_mk(_MSETS[0], (_J1, _J2, _J3), ("bc", "bd", "cd")))
+                  bound="all three chains interfering, spins (%d, %d, %d)%s" % (_J1, _J2, _J3, "; re-evaluated after set_params" if _quick else ""))(
+                _mk(_MSETS[0], (_J1, _J2, _J3), ("bc", "bd", "cd"), reeval=_quick))
 
 
 # ---------------------------------------------------------------------------------------------
